@@ -36,6 +36,8 @@ func main() {
 		os.Exit(manifest(out))
 	case "explain":
 		os.Exit(explain(os.Args[2:]))
+	case "callees":
+		os.Exit(callees(os.Args[2:]))
 	default:
 		fmt.Fprintln(os.Stderr, "unknown command", os.Args[1])
 		os.Exit(2)
